@@ -94,6 +94,8 @@ def explore(start_snap, start_dump, oplist, max_leaves, rng=None):
         if leaves >= max_leaves:
             break
         _APP.restore(start_snap)
+        from harness import sched as _sched
+        del _sched.INSERTED[:]
         reqs = [(lambda op=op: ops.apply_real(_APP, op)) for op in oplist]
         steps = []       # (chosen, alive_modes before the choice)
 
@@ -128,7 +130,7 @@ def explore(start_snap, start_dump, oplist, max_leaves, rng=None):
             continue
         leaves += 1
         yield {'schedule': [s[0] for s in steps if s[0] is not None], 'responses': res, 'trace': trace,
-               'dump': _APP.dump()}
+               'dump': _APP.dump(), 'rowid_reused': _sched.rowid_reused()}
 
 
 def run_with_chooser(reqs, chooser):
@@ -356,6 +358,9 @@ def race_case(args):
         serial_cache = {}
         for leaf in explore(start_snap, start_dump, oplist, max_leaves, rng):
             out['leaves'] += 1
+            if leaf.get('rowid_reused'):
+                out['rowid_reused'] = out.get('rowid_reused', 0) + 1
+                continue
             vio = []
             for sig, detail in monitors(props, start_snap, start_dump, oplist, leaf, serial_cache):
                 vio.append({'kind': 'monitor', 'signature': sig, 'detail': detail})
@@ -408,6 +413,8 @@ def pick_race(rng, g, v, profile):
     rps = list(v.rps)
     target = rng.choice(rps) if rps else gen.RPS[0]
     cons = rng.choice(gen.CONSUMERS)
+    if v.consumers and rng.random() < profile.get('existing_consumer_bias', 0.3):
+        cons = rng.choice(list(v.consumers))
     out = []
     for _ in range(n):
         k = rng.choices(ks, weights=[kinds[x] for x in ks])[0]
@@ -432,6 +439,8 @@ def pick_race(rng, g, v, profile):
             if keys and rng.random() < 0.7:
                 kk = rng.choice(keys)
                 op['c']['allocs'] = [[kk[0], kk[1], g.amount_for(v, kk, cons)]]
+            if mv >= 28 and rng.random() < profile.get('empty_bias', 0.0):
+                op['c']['allocs'] = []
         if k == 'alloc_post' and rng.random() < 0.8:
             mv = op['mv']
             others = [c for c in gen.CONSUMERS if c != cons]
@@ -484,6 +493,7 @@ def run_races(chk, props, n_cases, max_leaves, profile, procs=None):
             chk.cov['evaluations'] += res['leaves']
             chk.count('schedules_explored', res['leaves'])
             chk.count('race_cases', 1)
+            chk.count('schedules_skipped_sqlite_rowid_reuse', res.get('rowid_reused', 0))
             for p in res['pairs']:
                 chk.tally('races', p)
                 chk._distinct.add(p)
